@@ -239,6 +239,70 @@ func c18CallAndJudge(c *ev.Ctx, k c18Case, signer *crypki.Signer) bool {
 	return true
 }
 
+// c18Clock: a long-lived signer judges a server certificate by the time of the CALL: a certificate that expired since
+// the signer was built is refused, one issued since then is accepted. Real time (about 14 s); if the machine is so slow
+// that the first call does not finish within the certificate's 10 s of life, the scenario is abandoned (a cap, no alarm).
+func c18Clock(c *ev.Ctx) {
+	c.Eval()
+	k := map[string]any{"clock": true, "scenario": "signer built, server certificate expires, server certificate re-issued"}
+	s := c17Farm.servers[0]
+	for _, o := range c17Farm.servers {
+		o.reset()
+	}
+	set := func(identity string) time.Time {
+		cfg := c17PKI.serverTLS(identity, s.ip, tls.VersionTLS12, tls.VersionTLS13, tls.RequireAndVerifyClientCert, false)
+		s.reset()
+		s.mu.Lock()
+		s.tls = cfg
+		s.ans = answer{Kind: "ok", Key: c17CertLines[0]}
+		s.mu.Unlock()
+		return cfg.Certificates[0].Leaf.NotAfter
+	}
+	notAfter := set("expiring")
+	signer, err := crypki.NewSigner(crypki.SignerConfig{TLSClientKeyFile: c17PKI.ClientKeyFile, TLSClientCertFile: c17PKI.ClientCertFile, TLSCACertFiles: []string{c17PKI.CA1File},
+		CrypkiEndpoints: []string{"127.0.0.1"}, CrypkiPort: uint(c17Farm.port), Retries: 1, PerTryTimeout: 15 * time.Second})
+	if err != nil {
+		c.Violation("C18:newsigner-refuses-valid-config", err.Error(), k)
+		return
+	}
+	call := func() (error, int) {
+		req := &proto.SSHCertificateSigningRequest{KeyMeta: &proto.KeyMeta{Identifier: "slot"}, Principals: []string{"alice"}, PublicKey: c17CertLines[0], Validity: 60}
+		ctx, cancel := context.WithTimeout(context.Background(), 60*time.Second)
+		defer cancel()
+		var serr error
+		if p := ev.Guard(func() { _, _, serr = signer.Sign(ctx, req) }); p != "" {
+			serr = fmt.Errorf("panic: %s", p)
+		}
+		s.mu.Lock()
+		n := len(s.Requests)
+		s.mu.Unlock()
+		return serr, n
+	}
+	e1, n1 := call()
+	if time.Now().After(notAfter.Add(-2 * time.Second)) {
+		c.Cap("clock scenario abandoned: the first call took most of the certificate's lifetime")
+		return
+	}
+	if e1 != nil || n1 != 1 {
+		c.Violation("C18:genuine-endpoint-fails:clock:first-call", fmt.Sprintf("the certificate is valid for several more seconds, yet the call failed (%v, %d requests served)", e1, n1), k)
+		return
+	}
+	time.Sleep(time.Until(notAfter.Add(2 * time.Second)))
+	s.reset()
+	e2, n2 := call()
+	c.Outcome(fmt.Sprintf("clock/after-expiry/err=%v/served=%d", e2 != nil, n2))
+	c.Nontrivial("clock")
+	if n2 > 0 || e2 == nil {
+		c.Violation("C18:impostor-served:expired-since-the-signer-was-built", fmt.Sprintf("the server's certificate expired %v ago, after the signer was built; the same signer still used it (served %d requests, err=%v)", time.Since(notAfter).Round(time.Second), n2, e2), k)
+	}
+	set("fresh")
+	e3, n3 := call()
+	c.Outcome(fmt.Sprintf("clock/reissued/err=%v/served=%d", e3 != nil, n3))
+	if e3 != nil || n3 != 1 {
+		c.Violation("C18:genuine-endpoint-fails:clock:certificate-issued-after-the-signer-was-built", fmt.Sprintf("the server now presents a certificate of the configured CA issued a second ago; the long-lived signer refused it: %v", e3), k)
+	}
+}
+
 // c18OverlapCase: two signers of one process use the same endpoint at overlapping times. Signer A's call is in flight (the
 // server holds it) while signer B - the signer under test - makes its call; the gate is event-driven, no timing is involved.
 type c18OverlapCase struct {
@@ -380,7 +444,7 @@ func c18Overlap(c *ev.Ctx, k c18OverlapCase) {
 }
 
 func checkC18(c *ev.Ctx) {
-	c.Rule("real crypki.NewSigner / Sign over real TLS against harness gRPC servers on 127.0.0.1..3:port whose TLS personality is swapped per configuration: CA bundle {one file, two files, one file with two certificates; plus 4 other legal layouts of the two-CA bundle: no newline after the last END line, an unrelated CA in front, CRLF with text between blocks, reversed order; and a single path whose content is rewritten between signers (6 earlier-content histories x 3 current contents)} x server identity {configured CA 1, CA 2, foreign CA, self-signed, expired, not yet valid, other name} x protocol range {1.0-1.1, 1.2, 1.3, 1.0-1.3} x client-certificate policy {require+verify, request, ignore, request while naming only a foreign client CA, verify-if-given against a foreign client CA} (420 single-endpoint configurations), plus endpoint lists of length 2..3 with every placement of one genuine server among impostors of 3 kinds incl. a configured-CA certificate that names the first endpoint (thorough: 7 kinds, two genuine servers); plus 9 sequences of two or three calls on ONE long-lived signer with the servers behind the endpoints changing personality in between (genuine and impostor swapping places), plus 36 overlap scenarios: two signers with bundles {CA 1, CA 2, both} each, the first signer's call held in the server's handler (event-driven gate) while the second signer calls the same endpoint; servers record handshakes, negotiated version, peer certificates and whether the RPC handler ran. non-trivial = every configuration; distinct by configuration")
+	c.Rule("real crypki.NewSigner / Sign over real TLS against harness gRPC servers on 127.0.0.1..3:port whose TLS personality is swapped per configuration: CA bundle {one file, two files, one file with two certificates; plus 4 other legal layouts of the two-CA bundle: no newline after the last END line, an unrelated CA in front, CRLF with text between blocks, reversed order; and a single path whose content is rewritten between signers (6 earlier-content histories x 3 current contents)} x server identity {configured CA 1, CA 2, foreign CA, self-signed, expired, not yet valid, other name} x protocol range {1.0-1.1, 1.2, 1.3, 1.0-1.3} x client-certificate policy {require+verify, request, ignore, request while naming only a foreign client CA, verify-if-given against a foreign client CA} (420 single-endpoint configurations), plus endpoint lists of length 2..3 with every placement of one genuine server among impostors of 3 kinds incl. a configured-CA certificate that names the first endpoint (thorough: 7 kinds, two genuine servers); plus 9 sequences of two or three calls on ONE long-lived signer with the servers behind the endpoints changing personality in between (genuine and impostor swapping places), plus one real-time scenario in which the server certificate expires, and is re-issued, during the life of one signer (14 s), plus 36 overlap scenarios: two signers with bundles {CA 1, CA 2, both} each, the first signer's call held in the server's handler (event-driven gate) while the second signer calls the same endpoint; servers record handshakes, negotiated version, peer certificates and whether the RPC handler ran. non-trivial = every configuration; distinct by configuration")
 	c.Assume("TLS and gRPC libraries run with their own goroutines and real time; outcomes are deterministic functions of the configuration; handshake internals are trusted")
 	c17PKI = newPKI()
 	defer os.RemoveAll(c17PKI.dir)
@@ -391,6 +455,13 @@ func checkC18(c *ev.Ctx) {
 	c17Farm = newFarm(c17PKI, 3)
 	defer c17Farm.stop()
 	if c.ReplayCase != nil {
+		var ck struct {
+			Clock bool `json:"clock"`
+		}
+		if json.Unmarshal(c.ReplayCase, &ck); ck.Clock {
+			c18Clock(c)
+			return
+		}
 		var ok c18OverlapCase
 		if json.Unmarshal(c.ReplayCase, &ok); ok.Overlap {
 			c18Overlap(c, ok)
@@ -402,6 +473,8 @@ func checkC18(c *ev.Ctx) {
 		return
 	}
 	n := 0
+	c18Clock(c)
+	n++
 	// two differently configured signers whose calls to one endpoint overlap
 	for _, srv := range []string{"ca1", "ca2"} {
 		for _, ba := range []string{"ca1", "ca2", "both"} {
